@@ -2,7 +2,7 @@
 from rules import grd as G
 from rules import digits as DG
 from rules import syntax as S
-from rules.core import (guarded, callee_name, last_seg, path_conditions, op_expr, rvalue_expr, show, strip_casts, expr_calls,
+from rules.core import (guarded, guarded_soft, callee_name, last_seg, path_conditions, op_expr, rvalue_expr, show, strip_casts, expr_calls,
                         expr_consts, fold, pol_is_variant, AnchorMissing)
 from rules.syntax import error_sites
 
@@ -237,9 +237,9 @@ def run(col, configs, tier):
         guarded(col, DG.rule_digit_decoders, facts)
         guarded(col, rule_empty_after_sign, facts)
         from rules import extra as X2
-        guarded(col, X2.rule_unchecked_window, facts)
-        guarded(col, X2.rule_take_n_window_size, facts)
-        guarded(col, X2.rule_sign_in_accumulation, facts)
-        guarded(col, X2.rule_suffix_step, facts)
+        guarded_soft(col, X2.rule_unchecked_window, facts)
+        guarded_soft(col, X2.rule_take_n_window_size, facts)
+        guarded_soft(col, X2.rule_sign_in_accumulation, facts)
+        guarded_soft(col, X2.rule_suffix_step, facts)
         from rules import sep as SEP4
         guarded(col, SEP4.rule_take_n_twins, facts)
